@@ -12,7 +12,7 @@ from ..gen import frames as F
 from .C02 import dense
 
 RULE = (
-    "C02's (frame, formula) cases plus null patterns with na_action in {drop, ignore}, rank reduction on/off, evaluated "
+    "C02's (frame, formula) cases (a column optionally renamed to `index`, `__index_level_0__` or `row_nr`) plus null patterns with na_action in {drop, ignore}, rank reduction on/off, evaluated "
     "through variants drawn from {pandas, numpy, sparse output} x {model_matrix, Formula.get_model_matrix, fresh "
     "ModelSpec.get_model_matrix, Materializer(data).get_model_matrix, reuse of the baseline's spec with an output "
     "override} x {pandas materializer, narwhals on the same pandas frame, narwhals on pyarrow.Table.from_pandas(frame)}. "
@@ -67,10 +67,18 @@ def _run_variant(s, df, variant, opts, base_spec):
     raise ValueError(entry)
 
 
+def case_name(case):
+    return next((c for c in case["frame"]["cols"] if c in ("index", "__index_level_0__", "row_nr")), "?")
+
+
 def check_case(case) -> Outcome:
     from ..libio import model_matrix
 
     out = Outcome()
+    if case.get("rename"):
+        # a data column with a name that frame libraries like to use for their own bookkeeping
+        case = F.rename_col({k: v for k, v in case.items() if k != "rename"}, *case["rename"])
+        out.label("column-named:" + case_name(case))
     fr, fc = case["frame"], case["formula"]
     df = F.build(fr)
     s = F.formula_string(fc)
@@ -139,17 +147,18 @@ def _with_custom(fc, pick):
 def gen(max_rows=10):
     variant = st.tuples(st.sampled_from(OUTPUTS), st.sampled_from(ENTRIES), st.sampled_from(MATS))
     return st.builds(
-        lambda fr, fc, efr, na, vs, two: {"frame": fr, "formula": fc, "efr": efr, "na_action": na, "variants": [list(v) for v in vs], "twosided": two},
+        lambda fr, fc, efr, na, vs, two, ren: {"frame": fr, "formula": fc, "efr": efr, "na_action": na, "variants": [list(v) for v in vs], "twosided": two, "rename": ren},
         F.frame(max_rows=max_rows, nulls=True, index_kinds=("default", "default", "shuffled", "strings"), bool_col=True),
         st.builds(_with_custom, F.formulas(num_cols=F.NUM_COLS + ["t"]), st.one_of(st.none(), st.none(), st.none(), st.tuples(st.sampled_from(CUSTOM), st.integers(0, 2)))),
         st.booleans(),
         st.sampled_from(["drop", "drop", "ignore"]),
         st.lists(variant, min_size=3, max_size=6, unique=True),
         st.sampled_from([False, False, True]),
+        st.one_of(st.none(), st.none(), st.none(), st.sampled_from([["y", "index"], ["G", "index"], ["y", "__index_level_0__"], ["y", "row_nr"]])),
     )
 
 
-BUDGET_S = {"quick": 70, "thorough": 1500}
+BUDGET_S = {"quick": 110, "thorough": 1500}
 
 
 def campaigns(tier, shard=0, nshards=1):
